@@ -3,9 +3,23 @@
   Property theorems only (work in progress: further theorems are appended as they are proved).
 -/
 import Minicbor.Lemmas.SkipLocal
+import Minicbor.Lemmas.SkipExact
+import Minicbor.Lemmas.SkipExt
 
 namespace Minicbor.C06
 open Dec
+
+/-- the encoding fits in a Rust slice (`len ≤ isize::MAX < 2^64`).  Needed because the model's
+    byte lists are unbounded while `nrounds`/`irounds` are saturating `u64` counters: a valid
+    tree whose encoding exceeds `2^64` bytes could make `saturating_add` clip. -/
+abbrev FitsSlice (w : WItem) : Prop := (encW w).length < 2 ^ 64
+
+/-- **C06, main statement** (alloc build).  For every well-formed item — arbitrarily nested
+    definite and indefinite arrays and maps, chunked strings, tag chains — followed by
+    arbitrary bytes, `skip` succeeds and stops exactly at the first byte after the item. -/
+theorem skip_exact (w : WItem) (rest : Bytes) (hv : w.Valid) (hfit : FitsSlice w) :
+    Dec.skip true (encW w ++ rest) = .ok () rest :=
+  Dec.skip_encW w rest hv (by unfold FitsSlice at hfit; unfold U64MAX; omega)
 
 /-- `Decoder::skip` (alloc and no-alloc build) never panics on ARBITRARY bytes: the
     `*n -= 1` in the stack bookkeeping never meets a `Some(0)`, no other operation can
@@ -13,5 +27,32 @@ open Dec
     (every iteration consumes at least one byte). -/
 theorem skip_no_panic (alloc : Bool) (bs : Bytes) : Dec.skip alloc bs ≠ .panic :=
   Dec.skip_ne_panic alloc bs
+
+/-- a successful `skip` does not look beyond the bytes it consumed (arbitrary bytes). -/
+theorem skip_ext (alloc : Bool) (bs r q : Bytes) (h : Dec.skip alloc bs = .ok () r) :
+    Dec.skip alloc (bs ++ q) = .ok () (r ++ q) :=
+  Dec.Ext.skip alloc bs () r q h
+
+/-- on every strict prefix of a well-formed item `skip` returns an error (it never stops early
+    and never panics). -/
+theorem skip_prefix_err (w : WItem) (p q : Bytes) (hv : w.Valid) (hfit : FitsSlice w)
+    (hp : encW w = p ++ q) (hq : q ≠ []) : ∃ e r, Dec.skip true p = .err e r := by
+  cases h : Dec.skip true p with
+  | ok u r =>
+    have h1 := skip_ext true p r q h
+    have h2 := skip_exact w [] hv hfit
+    rw [List.append_nil, hp, h1] at h2
+    have h3 : r ++ q = [] := by injection h2
+    simp at h3
+    exact absurd h3.2 hq
+  | err e r => exact ⟨e, r, rfl⟩
+  | panic => exact absurd h (skip_no_panic true p)
+
+/-- the same, phrased with `List.IsPrefix`. -/
+theorem skip_prefix_err' (w : WItem) (p : Bytes) (hv : w.Valid) (hfit : FitsSlice w)
+    (hp : p <+: encW w) (hne : p ≠ encW w) : ∃ e r, Dec.skip true p = .err e r := by
+  obtain ⟨q, hq⟩ := hp
+  refine skip_prefix_err w p q hv hfit hq.symm ?_
+  intro e; subst e; simp at hq; exact hne hq
 
 end Minicbor.C06
